@@ -330,10 +330,13 @@ def _remove_stale_scratch():
         pid = name[6:]
         if not pid.isdigit():
             continue
+        path = os.path.join("/dev/shm", name)
         try:
+            if time.time() - os.stat(path).st_mtime < 3600:
+                continue  # young: may belong to a run that this process cannot see
             os.kill(int(pid), 0)
         except ProcessLookupError:
-            shutil.rmtree(os.path.join("/dev/shm", name), ignore_errors=True)
+            shutil.rmtree(path, ignore_errors=True)
         except OSError:
             pass
 
